@@ -1,13 +1,29 @@
 //! C40: the CLI's OutputFormatter (CSV and JSON writers) on an arbitrary table.
 //! `cli` is a module of the binary crate only, so the CURRENT source file is compiled into this
 //! harness binary (cargo tracks it: an edit to /repo/src/cli/output.rs rebuilds c40).
-//! case: {"cols":[name], "types":["s"|"i"|"f"], "rows":[[cell]], "split":[batch sizes], "nobatch":bool}
-//!   cell: string|null for "s" (Utf8), integer|null for "i" (Int64), string|null for "f" (Float64,
-//!   the string is parsed with f64::from_str so that NaN/inf can be sent).
-//! output: {"csv":[bytes], "json":[bytes]} — exactly what `OutputFormatter::write` wrote; "ftext": per cell, the
-//! text std's `f64::to_string` gives for a Float64 cell (null elsewhere).
-use arrow::array::{ArrayRef, Float64Array, Int64Array, StringArray};
-use arrow::datatypes::{DataType, Field, Schema};
+//! case: {"cols":[name], "types":[kind], "rows":[[cell]], "split":[batch sizes], "nobatch":bool}
+//!   kind / cell:
+//!   "s"    Utf8                       string|null
+//!   "i"    Int64                      integer|null
+//!   "f"    Float64                    string|null (parsed with f64::from_str so that NaN/inf can be sent)
+//!   "b"    Boolean                    bool|null
+//!   "d"    Date32                     integer days|null
+//!   "ts"   Timestamp(Microsecond)     integer|null
+//!   "bin"  Binary                     [byte]|null
+//!   "li"   List<Int64>                [integer|null]|null
+//!   "fv:N" FixedSizeList<Float32, N>  [N float strings]|null
+//!   "st"   Struct{a: Int64, b: Utf8}  {"a": integer|null, "b": string|null}|null
+//! output: {"csv":[bytes], "json":[bytes]} — exactly what `OutputFormatter::write` wrote;
+//!   "ftext": per cell, the text std's `f64::to_string` gives for a Float64 cell (null elsewhere);
+//!   "dtext": per cell, the DISPLAYED text as bytes: what the production `format_display_value` returns for that
+//!   cell of that batch, obtained from the production Vertical writer (`name: <display text>` per row) on the same
+//!   batches projected to the one column; null for a NULL cell.
+use arrow::array::{
+    Array, ArrayRef, BinaryArray, BooleanArray, Date32Array, FixedSizeListArray, Float64Array, Int64Array, ListArray,
+    StringArray, StructArray, TimestampMicrosecondArray,
+};
+use arrow::buffer::NullBuffer;
+use arrow::datatypes::{DataType, Field, Fields, Float32Type, Int64Type, Schema};
 use arrow::record_batch::RecordBatch;
 use serde_json::{json, Value};
 use std::sync::Arc;
@@ -22,19 +38,46 @@ fn main() {
 }
 
 fn column(ty: &str, cells: &[&Value]) -> ArrayRef {
+    if let Some(dim) = ty.strip_prefix("fv:") {
+        let dim: i32 = dim.parse().unwrap();
+        let it = cells.iter().map(|c| {
+            c.as_array().map(|a| {
+                a.iter().map(|x| Some(x.as_str().unwrap().parse::<f32>().expect("float text"))).collect::<Vec<Option<f32>>>()
+            })
+        });
+        return Arc::new(FixedSizeListArray::from_iter_primitive::<Float32Type, _, _>(it, dim));
+    }
     match ty {
         "s" => Arc::new(StringArray::from(
             cells.iter().map(|c| c.as_str().map(|s| s.to_string())).collect::<Vec<Option<String>>>(),
         )),
-        "i" => Arc::new(Int64Array::from(
-            cells.iter().map(|c| c.as_i64()).collect::<Vec<Option<i64>>>(),
-        )),
+        "i" => Arc::new(Int64Array::from(cells.iter().map(|c| c.as_i64()).collect::<Vec<Option<i64>>>())),
         "f" => Arc::new(Float64Array::from(
-            cells
-                .iter()
-                .map(|c| c.as_str().map(|s| s.parse::<f64>().expect("float text")))
-                .collect::<Vec<Option<f64>>>(),
+            cells.iter().map(|c| c.as_str().map(|s| s.parse::<f64>().expect("float text"))).collect::<Vec<Option<f64>>>(),
         )),
+        "b" => Arc::new(BooleanArray::from(cells.iter().map(|c| c.as_bool()).collect::<Vec<Option<bool>>>())),
+        "d" => Arc::new(Date32Array::from(cells.iter().map(|c| c.as_i64().map(|x| x as i32)).collect::<Vec<Option<i32>>>())),
+        "ts" => Arc::new(TimestampMicrosecondArray::from(cells.iter().map(|c| c.as_i64()).collect::<Vec<Option<i64>>>())),
+        "bin" => {
+            let owned: Vec<Option<Vec<u8>>> = cells
+                .iter()
+                .map(|c| c.as_array().map(|a| a.iter().map(|x| x.as_u64().unwrap() as u8).collect()))
+                .collect();
+            Arc::new(BinaryArray::from_opt_vec(owned.iter().map(|o| o.as_deref()).collect()))
+        }
+        "li" => {
+            let it = cells.iter().map(|c| c.as_array().map(|a| a.iter().map(|x| x.as_i64()).collect::<Vec<Option<i64>>>()));
+            Arc::new(ListArray::from_iter_primitive::<Int64Type, _, _>(it))
+        }
+        "st" => {
+            let a: ArrayRef = Arc::new(Int64Array::from(cells.iter().map(|c| c["a"].as_i64()).collect::<Vec<Option<i64>>>()));
+            let b: ArrayRef = Arc::new(StringArray::from(
+                cells.iter().map(|c| c["b"].as_str().map(|s| s.to_string())).collect::<Vec<Option<String>>>(),
+            ));
+            let fields = Fields::from(vec![Field::new("a", DataType::Int64, true), Field::new("b", DataType::Utf8, true)]);
+            let nulls = NullBuffer::from(cells.iter().map(|c| !c.is_null()).collect::<Vec<bool>>());
+            Arc::new(StructArray::try_new(fields, vec![a, b], Some(nulls)).unwrap())
+        }
         _ => panic!("unknown column type"),
     }
 }
@@ -43,18 +86,8 @@ fn case(v: &Value) -> Value {
     let cols: Vec<String> = v["cols"].as_array().unwrap().iter().map(|c| c.as_str().unwrap().to_string()).collect();
     let types: Vec<String> = v["types"].as_array().unwrap().iter().map(|c| c.as_str().unwrap().to_string()).collect();
     let rows: Vec<&Vec<Value>> = v["rows"].as_array().unwrap().iter().map(|r| r.as_array().unwrap()).collect();
-    let fields: Vec<Field> = cols
-        .iter()
-        .zip(&types)
-        .map(|(n, t)| {
-            let dt = match t.as_str() {
-                "s" => DataType::Utf8,
-                "i" => DataType::Int64,
-                _ => DataType::Float64,
-            };
-            Field::new(n, dt, true)
-        })
-        .collect();
+    let fields: Vec<Field> =
+        cols.iter().zip(&types).map(|(n, t)| Field::new(n, column(t, &[]).data_type().clone(), true)).collect();
     let schema = Arc::new(Schema::new(fields));
     let mut batches = Vec::new();
     if !v["nobatch"].as_bool().unwrap_or(false) {
@@ -92,5 +125,30 @@ fn case(v: &Value) -> Value {
                 .collect()
         })
         .collect();
-    json!({"csv": csv, "json": js, "batches": batches.len(), "ftext": ftext})
+    // the displayed text of every cell, from the production Vertical writer: with the batches projected to column j
+    // (renamed "c"), the output for the first r+1 rows extends the output for the first r rows by
+    // "*************************** {r+1} ***************************\nc: {display text}\n"
+    let mut dtext: Vec<Vec<Value>> = rows.iter().map(|_| vec![Value::Null; cols.len()]).collect();
+    for j in 0..cols.len() {
+        let one = Arc::new(Schema::new(vec![Field::new("c", schema.field(j).data_type().clone(), true)]));
+        let proj: Vec<RecordBatch> =
+            batches.iter().map(|b| RecordBatch::try_new(one.clone(), vec![b.column(j).clone()]).unwrap()).collect();
+        let mut prev = 0usize;
+        let mut row = 0usize;
+        for b in &proj {
+            for i in 0..b.num_rows() {
+                let mut out = Vec::new();
+                OutputFormatter::new(OutputFormat::Vertical).with_max_rows(row + 1).write(&mut out, &proj).unwrap();
+                let head = format!("*************************** {} ***************************\nc: ", row + 1);
+                let piece = &out[prev..];
+                assert!(piece.starts_with(head.as_bytes()) && piece.ends_with(b"\n"), "vertical layout");
+                if !b.column(0).is_null(i) {
+                    dtext[row][j] = json!(piece[head.len()..piece.len() - 1].to_vec());
+                }
+                prev = out.len();
+                row += 1;
+            }
+        }
+    }
+    json!({"csv": csv, "json": js, "batches": batches.len(), "ftext": ftext, "dtext": dtext})
 }
